@@ -5,6 +5,9 @@
 //! * `state-guess`     `State::new_npt` with `InitialDensity` / `Vapor` / `Liquid` vs `None` in
 //!                     single-root situations (harness scan of the isotherm); `new_nph`, `new_nps`,
 //!                     `new_nvu` with `initial_temperature`, `new_nts` with `InitialDensity`
+//! * `state-two-roots` `State::new_npt(.., InitialDensity(rho0))` of pure Gross-Sadowski PC-SAFT records
+//!                     where two stable-branch roots exist: rho0 on the side of the root returned
+//!                     without a guess, possibly inside the mechanically unstable region
 //! * `flash-guess`     `tp_flash` with the solution of a neighbouring (T, p) as initial state
 //! * `bubble-dew-guess` bubble / dew points with `tp_init` and `molefracs_init` within a factor 3
 //! * `diagram-pure`    every point of `PhaseDiagram::pure` equals the stand-alone solve (incl.
@@ -169,8 +172,11 @@ fn kappa<E: Residual>(s: &State<E>) -> f64 {
 #[allow(clippy::too_many_arguments)]
 fn same_vle(obs: &mut Obs, tag: &str, what: &str, a: &Vle, b: &Vle, tol: f64, tol_p: f64, swap: bool) {
     let (va, vb) = (vle_vals(a), vle_vals(b));
-    let tol_v = tol_p * kappa(a.vapor()).max(kappa(b.vapor()));
-    let tol_l = tol_p * kappa(a.liquid()).max(kappa(b.liquid()));
+    // pure equilibria: pure_t / pure_p return densities that are one Newton step behind the
+    // converged pressure (measured 8.4e-8 on the liquid density where p agrees to 1.8e-8): x5
+    let lag = if a.vapor().molefracs.len() == 1 { 5.0 } else { 1.0 };
+    let tol_v = lag * tol_p * kappa(a.vapor()).max(kappa(b.vapor()));
+    let tol_l = lag * tol_p * kappa(a.liquid()).max(kappa(b.liquid()));
     see(&format!("{tag}: T"), rel(va.t, vb.t) / tol);
     see(&format!("{tag}: p"), rel(va.p, vb.p) / tol_p);
     see(&format!("{tag}: rho_v"), rel(va.rho_v, vb.rho_v) / tol_v);
@@ -645,6 +651,192 @@ fn t_low(cr: &[Crit], tr: f64) -> Temperature {
     let lo = cr.iter().map(|c| c.t).fold(f64::MAX, f64::min);
     let hi = cr.iter().map(|c| c.t).fold(0.0, f64::max);
     (tr * lo).max(0.5 * hi) * KELVIN
+}
+
+// ---------------------------------------------------------------------------------------
+// Part B2: new_npt with InitialDensity where TWO stable-branch roots exist (sub-critical pure
+// component, pressure inside the van der Waals loop): the initial density lies on the side of
+// the root that `new_npt(.., None)` returns (the one with the lower Gibbs energy), possibly
+// inside the mechanically unstable region, where `density_iteration` takes its "correction
+// for instable region" branches (density_iteration.rs:54-121).
+// ---------------------------------------------------------------------------------------
+#[derive(Serialize, Deserialize, Clone, Debug)]
+pub struct TCase {
+    pub spec: ModelSpec,
+    /// T / T_c
+    pub tr: f64,
+    /// target: the stable liquid (p above p_sat) or the stable vapour (p below p_sat)
+    pub liquid: bool,
+    /// position of p in its interval: liquid [1.02 p_sat, min(p_spinodal_vapour, 3 p_sat)],
+    /// vapour [0.5, 0.98] p_sat
+    pub u_p: f64,
+    /// initial density / density of the target root: liquid [0.6, 1.3], vapour [0.3, 3]
+    pub ratio: f64,
+}
+
+/// calibrated domain (see `run`): upper ends of T/T_c
+pub const TWO_ROOT_TR_MAX_LIQUID: f64 = 0.94;
+pub const TWO_ROOT_TR_MAX_VAPOUR: f64 = 0.945;
+/// up to here the unchanged tree returns the guess-free root for every initial density of the domain
+pub const TWO_ROOT_TR_CLEAN_VAPOUR: f64 = 0.925;
+const GS_FILES: [&str; 5] = ["gross2001.json", "gross2002.json", "gross2005_fit.json", "gross2005_literature.json", "gross2006.json"];
+
+fn decode_two(g: &mut Gen) -> TCase {
+    // pure records of the Gross-Sadowski collections (133 records, methane first)
+    let idx: Vec<usize> = (0..DOMAIN_POOL.len()).filter(|&i| GS_FILES.contains(&DOMAIN_POOL[i].file)).collect();
+    let spec = pure_spec(&DOMAIN_POOL[idx[g.index(idx.len())]]);
+    let liquid = !g.bool(0.5);
+    // half of the temperatures in the upper fifth of the range, where the initial densities of
+    // the range reach the unstable region
+    let hi = if liquid { TWO_ROOT_TR_MAX_LIQUID } else { TWO_ROOT_TR_MAX_VAPOUR };
+    // vapour targets reach the unstable region only from the corner of the domain (initial
+    // density 2.4-3 x the vapour density, p >= 0.88 p_sat, T/T_c >= 0.9): half of the vapour
+    // cases are drawn there
+    let corner = !liquid && g.bool(0.5);
+    let tr = if corner {
+        g.range(0.9, hi)
+    } else if g.bool(0.5) {
+        g.range(hi - 0.08, hi)
+    } else {
+        g.range(0.5, hi)
+    };
+    let u_p = if corner { g.range(0.38 / 0.48, 1.0) } else { g.unit() };
+    let ratio = if liquid {
+        g.range(0.6, 1.3)
+    } else if corner {
+        g.log_range(2.4, 3.0)
+    } else {
+        g.log_range(0.3, 3.0)
+    };
+    TCase { spec, tr, liquid, u_p, ratio }
+}
+
+pub fn check_two(case: &TCase, obs: &mut Obs) {
+    let spec = &case.spec;
+    obs.class(spec.label());
+    obs.class(if case.liquid { "liquid target" } else { "vapour target" });
+    if spec.has_association() {
+        obs.class("assoc");
+    }
+    if spec.has_polar() {
+        obs.class("polar");
+    }
+    let Ok(model) = spec.build() else {
+        obs.discard("build");
+        return;
+    };
+    let Some(c) = critical(spec, &model) else {
+        obs.discard("no critical point");
+        return;
+    };
+    let t = case.tr * c.t * KELVIN;
+    let Ok(vle) = Vle::pure(&model, t, None, SolverOptions::default()) else {
+        obs.discard("no pure equilibrium at T");
+        return;
+    };
+    let sat = vle_vals(&vle);
+    if collapsed(&sat) || !(sat.rho_v < c.rho && c.rho < sat.rho_l) {
+        obs.discard("saturation state unusable (C04 finding)");
+        return;
+    }
+    let moles = Moles::from_reduced(arr1(&[1.0]));
+    let p = if case.liquid {
+        // vapour-spinodal pressure: the upper end of the two-root pressure range
+        let Ok(sp) = State::spinodal(&model, t, None, SolverOptions::default()) else {
+            obs.discard("no spinodal");
+            return;
+        };
+        let (rs, ps) = (sp[0].density.to_reduced(), sp[0].pressure(Contributions::Total).to_reduced());
+        if !(rs > sat.rho_v && rs < c.rho && ps > 1.02 * sat.p) {
+            obs.discard("vapour spinodal not between the saturated vapour and the critical density");
+            return;
+        }
+        let hi = ps.min(3.0 * sat.p);
+        1.02 * sat.p + case.u_p * (hi - 1.02 * sat.p)
+    } else {
+        (0.5 + 0.48 * case.u_p) * sat.p
+    };
+    let pq = Pressure::from_reduced(p);
+    // the result without a guess: the root with the lower Gibbs energy
+    let Ok(base) = State::new_npt(&model, t, pq, &moles, DensityInitialization::None) else {
+        obs.class("new_npt(None):Err");
+        return;
+    };
+    let rb = base.density.to_reduced();
+    let on_side = if case.liquid { rb > sat.rho_l * 0.999 } else { rb < sat.rho_v * 1.001 };
+    if !on_side || rel(base.pressure(Contributions::Total).to_reduced(), p) > 1e-9 {
+        // (not a statement about guesses; C03 decides new_npt(None) itself)
+        obs.class("new_npt(None) not on the stable branch of the target");
+        return;
+    }
+    let rho_max = model.max_density(Some(&moles)).map(|r| r.to_reduced()).unwrap_or(f64::MAX);
+    let rho0 = (case.ratio * rb).min(0.98 * rho_max);
+    // where does the initial density lie?
+    let s0 = State::new_nvt(&model, t, moles.sum() / Density::from_reduced(rho0), &moles);
+    let unstable0 = s0.as_ref().map_or(false, |s| s.dp_drho(Contributions::Total).to_reduced() <= 0.0);
+    obs.class(if unstable0 { "initial density mechanically unstable" } else { "initial density on a stable or metastable branch" });
+    let r = State::new_npt(&model, t, pq, &moles, DensityInitialization::InitialDensity(Density::from_reduced(rho0)));
+    match r {
+        Err(e) => obs.class(format!("InitialDensity:Err:{}", err_kind(&e))),
+        Ok(s) => {
+            obs.class("InitialDensity:Ok");
+            obs.ensure(s.temperature == t, || format!("new_npt(InitialDensity): temperature {} instead of {}", s.temperature, t));
+            let perr = rel(s.pressure(Contributions::Total).to_reduced(), p);
+            if perr > 1e-9 {
+                obs.class("InitialDensity: returned state misses the specified pressure");
+                obs.known_or_fail(
+                    "C12/density-iteration-unconverged-ok",
+                    format!("new_npt(InitialDensity) returns Ok at rho = {:e} where p misses the specified {:e} by {:e} relative", s.density.to_reduced(), p, perr),
+                );
+                return;
+            }
+            let tol = TOL * kappa(&base).max(kappa(&s));
+            // open finding: close to the critical temperature an initial density of 2.6-3 x the
+            // vapour root at p >= 0.93 p_sat converges to the metastable liquid root
+            if !case.liquid
+                && case.tr > TWO_ROOT_TR_CLEAN_VAPOUR
+                && case.ratio >= 2.6
+                && p >= 0.93 * sat.p
+                && s.density.to_reduced() > c.rho
+                && rel(s.density.to_reduced(), rb) > tol
+            {
+                obs.class("signature:C12/initial-density-near-critical-returns-metastable-liquid");
+                obs.known_or_fail(
+                    "C12/initial-density-near-critical-returns-metastable-liquid",
+                    format!(
+                        "new_npt(InitialDensity({:e} = {} x the vapour root)) returns the metastable liquid root {:e}, new_npt(None) returns {:e}; {} T/Tc = {}, p/p_sat = {}",
+                        rho0,
+                        case.ratio,
+                        s.density.to_reduced(),
+                        rb,
+                        rec_name(&spec.pure[0]),
+                        case.tr,
+                        p / sat.p
+                    ),
+                );
+                return;
+            }
+            see("state-two-roots: density", rel(s.density.to_reduced(), rb) / tol);
+            obs.ensure(rel(s.density.to_reduced(), rb) <= tol, || {
+                format!(
+                    "new_npt(InitialDensity({:e} = {} x the {} root)) returns rho = {:e}, new_npt(None) returns {:e} (the root with the lower Gibbs energy); {} T/Tc = {}, p/p_sat = {}, saturated densities {:e} / {:e}",
+                    rho0,
+                    case.ratio,
+                    if case.liquid { "liquid" } else { "vapour" },
+                    s.density.to_reduced(),
+                    rb,
+                    rec_name(&spec.pure[0]),
+                    case.tr,
+                    p / sat.p,
+                    sat.rho_v,
+                    sat.rho_l
+                )
+            });
+            if unstable0 || (case.ratio - 1.0).abs() > 0.1 {
+                obs.nontrivial();
+            }
+        }
+    }
 }
 
 // ---------------------------------------------------------------------------------------
@@ -1278,6 +1470,7 @@ fn check_line(case: &LCase, obs: &mut Obs) {
 
 // ---------------------------------------------------------------------------------------
 const PURE: PartCfg = PartCfg { name: "pure-guess", genome_len: 16, cases_quick: 8000, cases_thorough: 600_000, panic: PanicPolicy::Count };
+const TWO: PartCfg = PartCfg { name: "state-two-roots", genome_len: 12, cases_quick: 6000, cases_thorough: 600_000, panic: PanicPolicy::Count };
 const STATE: PartCfg = PartCfg { name: "state-guess", genome_len: 32, cases_quick: 2500, cases_thorough: 250_000, panic: PanicPolicy::Count };
 const FLASH: PartCfg = PartCfg { name: "flash-guess", genome_len: 40, cases_quick: 2000, cases_thorough: 150_000, panic: PanicPolicy::Count };
 const BD: PartCfg = PartCfg { name: "bubble-dew-guess", genome_len: 40, cases_quick: 2500, cases_thorough: 250_000, panic: PanicPolicy::Count };
@@ -1286,15 +1479,17 @@ const DBIN: PartCfg = PartCfg { name: "diagram-binary", genome_len: 32, cases_qu
 const LINES: PartCfg = PartCfg { name: "lines", genome_len: 32, cases_quick: 192, cases_thorough: 9_600, panic: PanicPolicy::Count };
 
 pub fn run(ctx: &Ctx) {
-    ctx.set_rule("All parts compare a guided call with the unguided / stand-alone call on the same input. pure-guess: C04 record pool x T/Tc in the success range x guess = converged equilibrium at T' with |T'-T| <= 0.3 Tc x options x T- or p-specification. state-guess: 1-2 hydrocarbon PC-SAFT components x T/Tc_max in [0.5,2] x target density (log-uniform 1e-4..0.1 and uniform 0.1..0.85 of rho_max) whose pressure has exactly one root on the isotherm (600-point scan) x guess factor in [1/3,3]: new_npt with InitialDensity/Vapor/Liquid vs None; pure components above p_c additionally new_nph/new_nps/new_nvu with initial_temperature and new_nts with InitialDensity. flash-guess: 2-3 hydrocarbons (SMILES only C,H; non-polar, non-associating; Tc ratio < 1.8; k_ij in +-0.05) x T/Tc_low in [0.6,0.95] x p inside an envelope wider than 5 % x initial state = flash at (T(1+-3 %), p(1+-15 %)). bubble-dew-guess: tp_init = solution x [1/3,3], molefracs_init = solution x [1/3,3] renormalised; p-specification: two initial temperatures within +-10 %. diagram-pure: npoints 3-120, T_min/Tc in [0.3,0.9], max_iter 3-60; 25 % of the cases on records with known failing temperatures. diagram-binary: T/Tc_low in [0.6,1.25], npoints 3-40, options incl. outer max_iter 4-40, and the component-swapped model. lines: npoints 6-24, T_min/Tc_mix in [0.5,0.9]. Non-trivial: guess differs from the solution by > 10 %, or a diagram point with index >= 1 was compared. Distinct by hash of the canonical case.");
+    ctx.set_rule("All parts compare a guided call with the unguided / stand-alone call on the same input. pure-guess: C04 record pool x T/Tc in the success range x guess = converged equilibrium at T' with |T'-T| <= 0.3 Tc x options x T- or p-specification. state-guess: 1-2 hydrocarbon PC-SAFT components x T/Tc_max in [0.5,2] x target density (log-uniform 1e-4..0.1 and uniform 0.1..0.85 of rho_max) whose pressure has exactly one root on the isotherm (600-point scan) x guess factor in [1/3,3]: new_npt with InitialDensity/Vapor/Liquid vs None; pure components above p_c additionally new_nph/new_nps/new_nvu with initial_temperature and new_nts with InitialDensity. state-two-roots: pure records of parameters/pcsaft/gross2001, gross2002, gross2005_fit, gross2005_literature, gross2006 (133 records) x target = the root returned by new_npt(None): liquid targets at T/Tc in [0.5,0.94] (half in [0.86,0.94]), p = 1.02 p_sat + u (min(p_spinodal_vapour, 3 p_sat) - 1.02 p_sat), rho0/rho_liquid uniform in [0.6,1.3]; vapour targets at T/Tc in [0.5,0.945], p in [0.5,0.98] p_sat, rho0/rho_vapour log-uniform in [0.3,3], half of them in the corner T/Tc in [0.9,0.945], p >= 0.88 p_sat, rho0/rho_vapour in [2.4,3] from which the unstable region is reached; non-trivial there: rho0 mechanically unstable or more than 10 % off. flash-guess: 2-3 hydrocarbons (SMILES only C,H; non-polar, non-associating; Tc ratio < 1.8; k_ij in +-0.05) x T/Tc_low in [0.6,0.95] x p inside an envelope wider than 5 % x initial state = flash at (T(1+-3 %), p(1+-15 %)). bubble-dew-guess: tp_init = solution x [1/3,3], molefracs_init = solution x [1/3,3] renormalised; p-specification: two initial temperatures within +-10 %. diagram-pure: npoints 3-120, T_min/Tc in [0.3,0.9], max_iter 3-60; 25 % of the cases on records with known failing temperatures. diagram-binary: T/Tc_low in [0.6,1.25], npoints 3-40, options incl. outer max_iter 4-40, and the component-swapped model. lines: npoints 6-24, T_min/Tc_mix in [0.5,0.9]. Non-trivial: guess differs from the solution by > 10 %, or a diagram point with index >= 1 was compared. Distinct by hash of the canonical case.");
     ctx.assume("tolerances: 2e-7 relative on T, p and 2e-7 absolute on mole fractions for Newton-converged results (bubble/dew points, density and temperature iterations; >= 100 x their tolerances 1e-9..1e-10; measured worst 7.6e-9 in 1.3e6 cases); densities from new_nts 5e-7 and from new_nph/new_nps/new_nvu 2e-6 (Newton on T with atol 1e-8 K; measured 9e-9 resp. 6e-9); a phase density follows the pressure with kappa = p/(rho dp/drho), its tolerance is tol_p x max(1, kappa); saturation pressures of pure equilibria 1e-6 (pure_t/pure_p stop on the pressure/temperature update while the densities are one Newton step behind: C04 measured residuals up to 1e-8 with the default tolerance), x10 above 0.99 Tc, x max(1, 1e5 x tol option / 1e-6) for looser solver tolerances; tp_flash densities/compositions 1e-5 x max(1, tol/1e-8) (the flash stops on |d ln K| < 1e-8 with linearly converging successive substitution; phase fraction divided by max|y-x|); bubble/dew tolerances scale with max(1, 100 x outer tolerance option / 2e-7)");
     ctx.assume("mixtures: non-associating non-polar PC-SAFT records whose SMILES contains only C and H, T_c ratio < 1.8, |k_ij| <= 0.05, T = max(tr x lowest T_c, 0.5 x highest T_c) (below ~0.45 T_c the pure PC-SAFT models have spurious dense phases, i.e. liquid-liquid demixing of the model); line points above 0.95 T_c,mix are not compared (ill-conditioned, outside C05's domain); results with opposite density order (bubble/dew exchange) or on different branches of a closed / retrograde envelope are different equilibria of the same equations and are counted as inconclusive");
     ctx.assume("single-root situations for the state constructors are established by the harness (sign changes of p(rho) - p on a 600-point scan of the isotherm; p >= 1e-4 in reduced units because density_iteration resolves p to 1e-12 absolutely); new_nph/new_nps/new_nvu only for pure components at p > 1.05 p_c (h, s monotone in T, one density root for every T)");
+    ctx.assume("state-two-roots: calibration of the domain: full grid 133 records x T/Tc 0.50..0.94 (step 0.02) x 6 pressures x 15 initial densities x 2 targets (550 620 cases): no deviation for liquid targets up to 0.94 and for vapour targets up to 0.92; dense scan of the vapour corner (133 records x T/Tc 0.89..0.94 step 0.0025 x p/p_sat 0.88..0.98 x rho0/rho_vapour 2.4..3.0, 36 575 cases per temperature): first deviations of the unchanged tree at T/Tc = 0.9325 (p >= 0.98 p_sat, rho0 = 3 rho_vapour: argon, methane, water), 26 at 0.935, 301 at 0.94 (the metastable liquid root is returned); the vapour domain extends to 0.945, and above 0.925 a returned metastable liquid root for rho0 >= 2.6 rho_vapour at p >= 0.93 p_sat is the open finding C12/initial-density-near-critical-returns-metastable-liquid (anything else there is a violation); tolerance 2e-7 x max(1, p/(rho dp/drho)); an Ok result that misses the specified pressure by > 1e-9 is the finding C12/density-iteration-unconverged-ok; Err results are counted");
     ctx.assume("PhaseDiagram::pure falls back to exactly the stand-alone cascade when the guided attempt fails (vle_pure.rs:39-61), so a grid temperature at which the stand-alone solve succeeds must be present; for bubble/dew lines and binary diagrams only 'both present => equal' is asserted (a guided failure has no fallback there)");
     ctx.assume("results that are collapsed pairs (finding C04/pure-collapsed-solution) are attributed to that finding");
     ctx.extra("hydrocarbon_records", json!(HC_POOL.len()));
     ctx.run_sampled(&PURE, &decode_pure, &check_pure);
     ctx.run_sampled(&STATE, &decode_state, &check_state);
+    ctx.run_sampled(&TWO, &decode_two, &check_two);
     ctx.run_sampled(&FLASH, &decode_flash, &check_flash);
     ctx.run_sampled(&BD, &decode_bd, &check_bd);
     ctx.run_sampled(&DPURE, &decode_dpure, &check_dpure);
@@ -1308,6 +1503,7 @@ pub fn replay(ctx: &Ctx, part: &str, case: &Value) -> bool {
     match part {
         "pure-guess" => ctx.replay_case::<PCase>(case, &check_pure),
         "state-guess" => ctx.replay_case::<GCase>(case, &check_state),
+        "state-two-roots" => ctx.replay_case::<TCase>(case, &check_two),
         "flash-guess" => ctx.replay_case::<FCase>(case, &check_flash),
         "bubble-dew-guess" => ctx.replay_case::<BCase>(case, &check_bd),
         "diagram-pure" => ctx.replay_case::<DCase>(case, &check_dpure),
